@@ -4,4 +4,7 @@ package props
 import (
 	_ "verif/props/c02"
 	_ "verif/props/c03"
+	_ "verif/props/c04"
+	_ "verif/props/c08"
+	_ "verif/props/c15"
 )
